@@ -21,3 +21,25 @@ Proof.
   split; [exact HW|]. split; [exact H1|]. split; [exact H2|].
   unfold key_ok. split; [intros (_ & _ & H); exact H|intros H; repeat split; assumption].
 Qed.
+
+(* Since rtr_prefix_pdu_is_valid also rejects prefixes with a bit set behind their length, the whole precondition of
+   the trie theorems holds for every record that reaches the prefix table through a cache response. *)
+Lemma forallb_negb_repeat (l : list bool) : forallb negb l = true -> l = repeat false (List.length l).
+Proof.
+  induction l as [|b l IH]; [reflexivity|]. cbn [forallb List.length repeat]. intros H.
+  apply andb_true_iff in H. destruct H as [Hb Hl]. destruct b; [discriminate|]. f_equal. exact (IH Hl).
+Qed.
+
+Theorem stored_prefix_is_key_ok (p : list byte) :
+  Forall byte_ok p -> pdu_ok p -> nthb p 1 = c_IPV4_PREFIX \/ nthb p 1 = c_IPV6_PREFIX -> prefix_lengths_valid p = true ->
+  let '(v6, bits, len, mx, asn, _) := prec_of_pdu p in
+  key_ok (if v6 then 128%nat else 32%nat) bits (Z.to_nat len).
+Proof.
+  intros Hb Hok Ht Hv. pose proof (stored_prefix_key_ok p Hb Hok Ht Hv) as H.
+  assert (Hz : prefix_host_bits_zero p = true).
+  { unfold prefix_lengths_valid in Hv. apply andb_true_iff in Hv. destruct Hv as [_ Hv]. exact Hv. }
+  unfold prefix_host_bits_zero in Hz. unfold prec_of_pdu in *.
+  destruct (nthb p 1 =? c_IPV6_PREFIX) eqn:E6; cbv zeta iota in *;
+    destruct H as (HW & H1 & _ & Hiff); apply Hiff;
+    rewrite (forallb_negb_repeat _ Hz), skipn_length, HW; reflexivity.
+Qed.
